@@ -23,6 +23,7 @@ def scenarios(tier, rnd):
             x = rnd.random()
             if x < 0.12 and not started:
                 ops.append(dict(op="worker"))
+                ops.append(dict(op="drain"))       # what was queued before is consumed before the next submission
                 started = True
             elif x < 0.25 and started:
                 ops.append(dict(op="drain"))
